@@ -240,3 +240,9 @@ class DirDevice(object):
     def send_rsp_recv_cmd(self, target, data, timeout):
         self.used = "rsp"
         return nondet_bytearray(0, None)
+
+
+class PresentClf(object):
+    """a frontend with the tag in the field: re-activation always finds it"""
+    def sense(self, *targets, **options):
+        return targets[0]
